@@ -77,6 +77,10 @@ class Explorer:
         self.speculative = 0
         self.floor_cache_seed = {}
         self.floor_cache = {}
+        self.pipe_registry_seed = []
+        self.pipe_registry = []
+        self.first_choice_seed = {}
+        self.first_choice = {}
         self.branch_rlimit = 4000000
         self.base_pc = []
         self.prefix = ''
@@ -100,6 +104,8 @@ class Explorer:
         self.pc = list(self.base_pc)
         self.fresh_ctr = 0
         self.floor_cache = dict(self.floor_cache_seed)
+        self.pipe_registry = list(self.pipe_registry_seed)
+        self.first_choice = dict(self.first_choice_seed)
         self.notes = []
 
     def fresh_name(self, base):
